@@ -331,6 +331,8 @@ def write_evidence(prop, tier, seed, total, known, new, mod, extra=None):
         "harness_errors": len(total["harness_errors"]),
         "cpu_seconds": round(total["cpu_s"], 1),
     }
+    if os.environ.get("VERIF_DETERMINISM_SELFTEST"):
+        cov["determinism_selftest"] = os.environ["VERIF_DETERMINISM_SELFTEST"]
     if extra:
         cov.update(extra)
     doc = {
